@@ -118,6 +118,8 @@ func genC24(g *Gen, tier string, w *bufio.Writer) {
 	for i := 0; i < 25*mul; i++ {
 		fmt.Fprintln(w, jsonOp(g.U64()>>1, genJSONDoc(g, 101+g.Intn(30), false)))
 	}
+	// nested values beyond the preview with one element / field replaced at the first, a middle, the last position
+	genPositional(g, 1, func(op string) { fmt.Fprintln(w, op) })
 	// one JSON kind for the previewed rows, then one late value of every kind
 	vals := []*jv{{k: jNull}, jNumOf("1"), {k: jTrue}, jString("s"), jString("2020-01-02T03:04:05Z"),
 		{k: jArr}, {k: jArr, vals: []*jv{jNumOf("1")}}, {k: jArr, vals: []*jv{jString("x"), {k: jNull}}},
